@@ -23,6 +23,8 @@ STR_FULL = ["", "1", "1.0", "true", "false", "null", "no", "on", "~", " ", " a "
             "nan", "inf", ".inf", "1e5", "0x10", "010", "1_000", "+1", "-", "?", ": ", "a: ", " #x", "'", "\"", "\\", "\\n", "%",
             "@a", "`a`", "a\tb", "  two", "two  ", "<![CDATA[x]]>", "<!--c-->", "&amp;", "=", "y", "N", "2001-01-01", "1:30",
             " ", "a" * 200, "|", ">", "﻿x", "x﻿"]
+# empty and white-space-only lines inside a value
+STR_FULL += ["a\n\nb", "x\n \ny", "\n\n", "l1\n\t\nl3", "p\n\n\nq  r"]
 # what os.fsdecode / sys.argv give for undecodable bytes: a lone surrogate (no UTF-8 encoding, still a str)
 STR_FULL += ["caf\udce9.txt", "\ud800"]
 NUM_FULL = [None, True, False, 0, 1, -1, 2 ** 31, 2 ** 63 - 1, -2 ** 63, 2 ** 64, 10 ** 30, 0.0, -0.0, 1.5, 1e16, 1e-7,
@@ -224,6 +226,7 @@ def jobs(tier):
         for p in range(parts):
             out.append({"name": "sk%03d/%d" % (i, p), "skeleton": s, "part": p, "parts": parts, "tier": tier})
     out.append({"name": "wrong-root", "wrongroot": True, "tier": tier})
+    out.append({"name": "via-config", "viaconfig": True, "tier": tier})
     return out
 
 
@@ -260,6 +263,9 @@ def run_job(job, ctx):
     import cincoconfig as cc
     cfg = cc.Schema()()
     single = job.get("single")
+    if single and single.get("viaconfig"):
+        _via_config(ctx, single.get("only"))
+        return
     if single:
         from mc import values as V
         tree = V.dec(single["tree"])
@@ -270,6 +276,9 @@ def run_job(job, ctx):
         return
     if job.get("wrongroot"):
         _wrong_root(ctx, cfg)
+        return
+    if job.get("viaconfig") or (single and single.get("viaconfig")):
+        _via_config(ctx, (single or {}).get("only"))
         return
     s = job["skeleton"]
     L = leaves(s)
@@ -284,6 +293,52 @@ def run_job(job, ctx):
     ctx.states += len(part)
     ctx.depth = max(ctx.depth, L)
     ctx.sample({"skeleton": s, "leaf_assignments": len(part), "rows": len(ROWS)})
+
+
+def _via_config(ctx, only=None):
+    """format options given to Config.dumps / loads / save reach every document of the call - also the ones pulled in
+    through an include field - and never change what is decoded"""
+    import os
+    import cincoconfig as cc
+    from mc import values as V
+    for fmt, opts in ROWS:
+        row = "%s%s" % (fmt, sorted(opts.items()) if opts else "")
+        for where in ("root", "nested"):
+            ident = [row, where]
+            if only is not None and only != ident:
+                continue
+            s = cc.Schema()
+            s.x = cc.IntField(default=1)
+            s.y = cc.StringField(default="d")
+            s.sub.z = cc.IntField(default=1)
+            s.sub.w = cc.StringField(default="d")
+            s.include = cc.IncludeField(startdir=ctx.tmp)
+            s.sub.inc = cc.IncludeField(startdir=ctx.tmp)
+            f = cc.ConfigFormat.get(fmt, **opts)
+            child = {"x": 5, "sub": {"w": "from-child"}} if where == "root" else {"z": 7, "w": "from-child"}
+            with open(os.path.join(ctx.tmp, "child.inc"), "wb") as fh:
+                fh.write(f.dumps(None, child))
+            parent = {"y": "parent", "include": "child.inc"} if where == "root" else {"y": "parent", "sub": {"inc": "child.inc", "z": 3}}
+            want = {"x": 5, "y": "parent", "sub": {"z": 1, "w": "from-child"}} if where == "root" else {"x": 1, "y": "parent", "sub": {"z": 7, "w": "from-child"}}
+            ctx.transitions += 1
+            case = {"viaconfig": True, "only": ident, "job": "via-config"}
+            try:
+                cfg = s()
+                cfg.loads(f.dumps(None, parent), fmt, **opts)
+                got = {"x": cfg.x, "y": cfg.y, "sub": {"z": cfg.sub.z, "w": cfg.sub.w}}
+                # and back out through Config.dumps with the same options: the format object given the options decodes it
+                back = f.loads(None, cfg.dumps(fmt, **opts))
+            except Exception as exc:  # noqa
+                ctx.case(("via-config", row, where), "via-config:raises", True)
+                ctx.violation("C04|via-config|%s|raises-%s" % (row, type(exc).__name__),
+                              "%s: Config.loads of a document that names an include (both written with these options) raised %r" % (row, exc), case)
+                continue
+            ctx.case(("via-config", row, where), "via-config:%s" % fmt, True)
+            if got != want:
+                ctx.violation("C04|via-config|%s|mismatch" % row, "%s: loaded %s, expected %s" % (row, got, want), case)
+            if not isinstance(back, dict) or back.get("y") != "parent":
+                ctx.violation("C04|via-config|%s|dumps-options" % row, "%s: Config.dumps with the options is not decoded by a format object with the same options: %s" % (row, V.show(back, 80)), case)
+    ctx.traces += 1
 
 
 def _to_plain(t):
